@@ -92,6 +92,19 @@ func buildOrder(sdls []string, order []int, parsed ...*ast.Schema) mergeOutcome 
 func (m mergeRunner) Run(c *Ctx, i int) CaseResult {
 	var mc MergeCase
 	id := ""
+	sigStats := map[string]int{}
+	if m.prop == "C09" || m.prop == "C10" {
+		// L2: merge.go's comparisons of two declarations of one field against Ms.typesEqual / Ms.argDefsEq (8 pairs per case)
+		for k := 0; k < 8; k++ {
+			sf, feat := MergeSigCorr(c, c.Rand(i*100+k+61000000))
+			if len(sf) > 0 {
+				return CaseResult{ID: fmt.Sprintf("gen:%d", i), Nontrivial: true, Fails: sf}
+			}
+			if feat != "" {
+				sigStats[feat]++
+			}
+		}
+	}
 	if i < len(mergeCorpus) {
 		mc = mergeCorpus[i]
 		id = "corpus:" + mc.Mutation
@@ -277,6 +290,9 @@ func (m mergeRunner) Run(c *Ctx, i int) CaseResult {
 				}
 			}
 		}
+	}
+	for k, v := range sigStats {
+		counters[k] = v
 	}
 	res.Counters = counters
 	// attribute to the property asked for
